@@ -732,15 +732,7 @@ func (c *Compiler) compileSlice(node *ast.Slice) error {
 	if err := c.compile(node.Left()); err != nil {
 		return err
 	}
-	to := node.ToIndex()
-	if to == nil {
-		c.emit(op.Copy, 0)
-		c.emit(op.Length)
-	} else {
-		if err := c.compile(to); err != nil {
-			return err
-		}
-	}
+	// Evaluate the bounds left to right: the start index, then the stop index
 	from := node.FromIndex()
 	if from == nil {
 		c.emit(op.LoadConst, c.constant(int64(0)))
@@ -749,6 +741,17 @@ func (c *Compiler) compileSlice(node *ast.Slice) error {
 			return err
 		}
 	}
+	to := node.ToIndex()
+	if to == nil {
+		c.emit(op.Copy, 1)
+		c.emit(op.Length)
+	} else {
+		if err := c.compile(to); err != nil {
+			return err
+		}
+	}
+	// The Slice operation expects the start index on top of the stack
+	c.emit(op.Swap, 1)
 	c.emit(op.Slice)
 	return nil
 }
